@@ -124,7 +124,10 @@ class BasePath(safe_str.safe_string):
     def parent(self):
         if not self.suffix:
             raise ValueError('already at root')
-        return type(self)(posixpath.dirname(self.suffix), self.root,
+        # Split off the drive so that the parent of `C:/foo` is `C:/`, not the
+        # drive-relative `C:`.
+        drive, path = ntpath.splitdrive(self.suffix)
+        return type(self)(drive + posixpath.dirname(path), self.root,
                           self.destdir, directory=True)
 
     def append(self, path):
